@@ -5,6 +5,8 @@ Domain : token lists (vlib.gen_text) x two independent random layouts drawn over
          single-blank canonical layout; x six parser variants, plus five mixed
          wirings pvl.loads(text, grammar=G(), decoder=D()) in which the decoder keeps
          its own default grammar.
+         Plus every label of tests/data that loads (tokens from an own tokeniser,
+         validated per file against the loader) in 4 (quick) / 150 (thorough) layouts.
 Oracle : metamorphic - load(layout1) == load(layout2) == load(canonical), and no
          layout fails if the canonical one loads.
 """
@@ -19,7 +21,7 @@ from vlib.shrink import shrink_seq
 
 ID = "C04"
 LEVEL = "exploration"
-BUDGET = {"quick": 75, "thorough": 900}
+BUDGET = {"quick": 100, "thorough": 1200}
 RULE = (
     "case = (parser variant, token list of a generated well-formed document, two "
     "random layouts + the canonical single-blank layout). Separators are runs of "
@@ -171,13 +173,132 @@ def mixed_cases(acc, name, n, seed):
     body()
 
 
+# ------------------------------------------------------ the tests/data corpus
+WS = " \t\r\n\x0b\x0c"
+SINGLE = {"=": "eq", ",": "comma", "(": "open", "{": "open", ")": "close", "}": "close",
+          ";": "semi"}
+
+
+def corpus_tokens(text):
+    """Own tokeniser for real labels (default grammar): comments are dropped, the text
+    is cut after its END statement.  Returns gen_text tokens, or None when the text
+    holds something this simple scanner does not want to judge (a word that ends in a
+    dash, an unterminated lexeme)."""
+    toks = []
+    i, n = 0, len(text)
+    while i < n:
+        c = text[i]
+        if c in WS:
+            i += 1
+        elif text.startswith("/*", i):
+            j = text.find("*/", i + 2)
+            if j < 0:
+                return None
+            i = j + 2
+        elif c == "#" and (i == 0 or text[i - 1] in WS):
+            j = text.find("\n", i)
+            i = n if j < 0 else j + 1
+        elif c in "\"'":
+            j = text.find(c, i + 1)
+            if j < 0:
+                return None
+            toks.append(gt.T(text[i:j + 1], "quoted"))
+            i = j + 1
+        elif c == "<":
+            j = text.find(">", i + 1)
+            if j < 0:
+                return None
+            toks.append(gt.T(text[i:j + 1], "units"))
+            i = j + 1
+        elif c in SINGLE:
+            toks.append(gt.T(c, SINGLE[c]))
+            i += 1
+        else:
+            j = i
+            while j < n and text[j] not in WS and text[j] not in SINGLE and \
+                    text[j] not in "\"'<" and not text.startswith("/*", j):
+                j += 1
+            if j == i:
+                return None
+            w = text[i:j]
+            if w.endswith("-") or "\0" in w:
+                return None
+            if w.casefold() == "end":
+                toks.append(gt.T(w, "end"))
+                return toks
+            toks.append(gt.T(w, "word"))
+            i = j
+    return toks
+
+
+def corpus_files():
+    import glob
+    import os
+    repo = os.environ.get("VERIF_REPO", "/repo")
+    out = []
+    for f in sorted(glob.glob(os.path.join(repo, "tests", "data", "**", "*"),
+                              recursive=True)):
+        if os.path.isfile(f) and os.path.getsize(f) < 40000:
+            try:
+                out.append((os.path.relpath(f, repo), open(f, encoding="utf-8",
+                                                           newline="").read()))
+            except (UnicodeDecodeError, OSError):
+                pass
+    return out
+
+
+def corpus_cases(acc, part, parts, nlayouts, seed):
+    """Every label under tests/data that loads: its tokens (own tokeniser) are laid out
+    again *nlayouts* times; each layout must load to what the single-blank layout loads
+    to.  The tokeniser is validated per file: the single-blank layout must load to what
+    the file itself loads to, otherwise the file is not used (counted)."""
+    import random
+    files = corpus_files()
+    for idx, (name, text) in enumerate(files):
+        if idx % parts != part:
+            continue
+        orig = load("default", text)
+        if orig[0] != "ok":
+            acc.event("corpus:file-does-not-load")
+            continue
+        toks = corpus_tokens(text)
+        if not toks:
+            acc.event("corpus:not-tokenised")
+            continue
+        doc = dict(tokens=toks, expected=None, tail="")
+        canon_text = gt.canonical_text(doc)
+        base = load("default", canon_text)
+        if base[0] != "ok" or nm.diff(orig[1], base[1]) is not None:
+            acc.event("corpus:tokeniser-and-loader-disagree (file not used)")
+            continue
+        acc.event("corpus:files-used")
+        rng = random.Random(seed * 7919 + idx)
+        for k in range(nlayouts):
+            if acc.expired():
+                acc.notes["budget_exhausted"] = 1
+                return
+            lay = gt.seeded_layout(doc, "default", rng.randrange(2 ** 32),
+                                   "full" if k % 3 else "light")
+            case = dict(dialect="default", texts=[canon_text, lay])
+            r = run_case(case)
+            acc.event(f"corpus:{r[0]}")
+            acc.case(key=name + "\0" + lay, nontrivial=True,
+                     sample={"file": name, "layout": lay[:200]} if k == 1 else None)
+            if r[0] == "fail":
+                acc.fail(r[1], dict(dialect="default", texts=[canon_text, lay],
+                                    file=name), r[2])
+
+
 def shards(tier, seed):
     n = 260 if tier == "quick" else 7000
     out = [("random_cases", dict(d=PARSERS[j % 6], n=n, seed=seed * 1000 + j))
            for j in range(18)]
     for j, name in enumerate(MIXED):
         out.append(("mixed_cases", dict(name=name, n=n // 2, seed=seed * 1000 + 50 + j)))
-    return out
+    corpus = [("corpus_cases", dict(part=part, parts=8, seed=seed,
+                                    nlayouts=3 if tier == "quick" else 150))
+              for part in range(8)]
+    return corpus + out
 
 
 def replay(case):
